@@ -3,7 +3,12 @@
 Require Extraction.
 Require Import ExtrOcamlBasic.
 From QV.Enc Require EncModel EncSpec.
+From QV.Str Require StrModel StrSpec.
 Extraction Blacklist List String Int.
 Extraction "../ocaml/gen/model.ml" EncModel.url_encode EncModel.url_dec_buf EncModel.url_decode EncModel.hex_encode EncModel.hex_dec_buf EncModel.hex_decode
    EncModel.b64_encode EncModel.b64_dec_buf EncModel.b64_decode EncModel.parse_queries EncModel.join_query EncModel.makeword EncModel.trim
-   EncSpec.rfc4648 EncSpec.hex_spec EncSpec.url_safe.
+   EncSpec.rfc4648 EncSpec.hex_spec EncSpec.url_safe
+   StrModel.qstrtrim StrModel.qstrtrim_head StrModel.qstrtrim_tail StrModel.qstrunchar StrModel.qstrreplace StrModel.qstrcpy StrModel.qstrncpy
+   StrModel.qstrdup_between StrModel.qmemdup StrModel.qstrgets StrModel.qstrrev StrModel.qstrupper StrModel.qstrlower StrModel.qstrtok StrModel.qstrtokenizer
+   StrSpec.trim_spec StrSpec.trim_head_spec StrSpec.trim_tail_spec StrSpec.unchar_spec StrSpec.replace_tok_spec StrSpec.replace_str_spec StrSpec.strcpy_spec
+   StrSpec.strncpy_spec StrSpec.gets_spec StrSpec.upper_spec StrSpec.lower_spec StrSpec.tokenize_spec StrSpec.strtok_spec.
